@@ -332,8 +332,7 @@ theorem exF_wf : exF.WF := by
     simp only [exF, List.mem_cons, List.not_mem_nil, or_false] at hR
     subst hR
     simp [exF]
-  · refine ⟨?_, ?_, by decide, ?_, ?_, by decide, ?_, ?_, by decide, ?_, ?_, by decide, trivial⟩ <;>
-      simp [FlatDesign.netD, NetD.comb, NetD.reads, NetD.writes, exF, Kind.leaf]
+  · exact FlatSrc.topoCheck_sound exF [0, 1, 2, 3] (by decide) (by decide)
   · intro k hk
     simp only [exF, List.mem_cons, List.not_mem_nil, or_false] at hk
     rcases hk with e | e | e | e <;> subst e <;> simp [Kind.ok]
